@@ -347,7 +347,12 @@ func c13Batch(c *core.Ctx, cases []c13Case, routes []string, seedOf func(i int, 
 				c.Sample(map[string]string{"case": cs.caseLine(rts[0].route, rts[0].seed), "mutation": cs.mut, "gen": rts[0].gen, "bindnode": rts[0].bind, "model-gen": gen["entry"].full})
 			}
 		}
-		if cs.mut == "none" && ideal.of != "ok "+cs.expect {
+		if cs.g.Ambiguous() {
+			c.Dist("type-system-with-unreadable-stringprefix-discriminant")
+		}
+		// (a type system with a string strategy that cannot read back its own output makes no such promise for inputs at
+		// representation level; the engines are still compared with each other and with the model on it)
+		if cs.mut == "none" && ideal.of != "ok "+cs.expect && !(cs.g.Ambiguous() && cs.lvl == "repr") {
 			report("C13/model-rejects-generated-inhabitant", core.Replay{Kind: "correspondence", Case: cs.caseLine("direct", 0), Model: ideal.of, Expected: "ok " + cs.expect,
 				Detail: "the model's ideal builder does not build the generated inhabitant from its own input"})
 			continue
@@ -767,6 +772,139 @@ func runC13(c *core.Ctx) error {
 			return false
 		}, cfg, failCounted); err != nil {
 			return err
+		}
+		if err := c13Retry(c, compiled, func(g *core.GenTS) bool {
+			for _, w := range wits {
+				if w.cs.g == g {
+					return true
+				}
+			}
+			return false
+		}, cfg, failCounted); err != nil {
+			return err
+		}
+	}
+	return nil
+}
+
+// c13Retry: a refused value leaves a REPRESENTATION builder as it was.  For every type of every compiled type system, the
+// representation builder is first offered a scalar it may have to refuse (a string no strategy can parse, an int, a
+// bool, null) and then, on the same builder, a legal history for the representation of an inhabitant.  Both engines
+// must answer the first call alike; where it is refused, every following call must succeed and the node built must be
+// the inhabitant (a refused call has no effect: C12 for generated and bound builders).
+func c13Retry(c *core.Ctx, compiled []*core.GenTS, skip func(*core.GenTS) bool, cfg core.SchemaCfg, report func(string, core.Replay)) error {
+	type rcase struct {
+		g       *core.GenTS
+		t       *core.SType
+		ops     []core.AsmOp
+		want    string
+		payload string
+		bind    string
+	}
+	var hs []rcase
+	var reqs []core.GenRequest
+	binds := &c13Binds{protos: map[string]datamodel.NodePrototype{}}
+	r := c.Rand.Fork()
+	bads := []core.Val{core.Str("\x01?"), core.Str(""), core.Int(7), core.Bool(true), {K: 'n'}, core.Str("zz\x01zz")}
+	for _, g := range compiled {
+		if skip(g) {
+			continue
+		}
+		for _, t := range g.Types {
+			v := core.GenInhabitant(t, r, cfg, true)
+			rv, ok := core.ReprOf(t, v)
+			if !ok {
+				continue
+			}
+			bp, err := binds.proto(g, t.Name, "repr")
+			if err != nil {
+				continue
+			}
+			for k := 0; k < 2; k++ {
+				bad := bads[r.Intn(len(bads))]
+				if k == 0 {
+					bad = bads[0]
+				}
+				ops := append([]core.AsmOp{{Kind: "A", V: bad}}, core.GenHistory(rv, r, false, true)...)
+				h := rcase{g: g, t: t, ops: ops, want: "built " + v.Term(), payload: core.OpsLine(ops)}
+				h.bind = core.GenObserve(bp, "ops", h.payload, 0)
+				hs = append(hs, h)
+				reqs = append(reqs, core.GenRequest{Pkg: g.Index, Type: t.Name, Level: "repr", Route: "ops", Payload: h.payload})
+			}
+		}
+	}
+	answers, err := core.RunGen(reqs)
+	if err != nil {
+		return err
+	}
+	split := func(obs string) (calls []string, final string, ok bool) {
+		f := strings.SplitN(obs, "\t", 2)
+		if f[0] != "ops" || len(f) != 2 {
+			return nil, "", false
+		}
+		parts := strings.SplitN(f[1], " | ", 2)
+		if len(parts) != 2 {
+			return nil, "", false
+		}
+		return strings.Fields(parts[0]), parts[1], true
+	}
+	for i, h := range hs {
+		caseID := fmt.Sprintf("c13 %s TYPE %s repr ops 0 OPS %s", h.g.Tokens(), h.t.Name, h.payload)
+		gc, gf, ok1 := split(answers[i])
+		bc, bf, ok2 := split(h.bind)
+		if !ok1 || !ok2 || len(gc) == 0 || len(bc) == 0 {
+			report("C13/retry-panics", core.Replay{Kind: "oracle", Case: caseID, Impl: "gen=" + answers[i] + "  bindnode=" + h.bind, Expected: "the first call answered (accepted or refused) by both engines"})
+			continue
+		}
+		refused := func(o string) bool { return strings.HasPrefix(o, "e:") }
+		c.Count(caseID, refused(bc[0]))
+		if refused(gc[0]) != refused(bc[0]) || (!refused(gc[0]) && gc[0] != "ok") || (!refused(bc[0]) && bc[0] != "ok") {
+			report("C13/retry-engines-disagree-on-first-call", core.Replay{Kind: "oracle", Case: caseID, Impl: "gen=" + answers[i] + "  bindnode=" + h.bind, Expected: "both engines accept or both refuse " + h.ops[0].Tokens()})
+			continue
+		}
+		if !refused(bc[0]) {
+			c.Dist("retry:first-call-accepted")
+			continue // the scalar was a value of the type: nothing to retry
+		}
+		c.Dist("retry:" + h.t.K + ":" + string(h.ops[0].V.K))
+		for engine, cf := range map[string]struct {
+			calls []string
+			final string
+			obs   string
+		}{"gen": {gc, gf, answers[i]}, "bindnode": {bc, bf, h.bind}} {
+			bad := ""
+			if h.g.Ambiguous() {
+				// the representation of an inhabitant need not be readable here: the engines are only compared with each other
+				cls := func(cs []string) string {
+					out := make([]string, len(cs))
+					for k, o := range cs {
+						if out[k] = o; refused(o) {
+							out[k] = "refused"
+						}
+					}
+					return strings.Join(out, " ")
+				}
+				if cls(gc) != cls(bc) || gf != bf {
+					bad = "the answers of the other engine"
+				}
+				if bad != "" && engine == "gen" {
+					report("C13/retry-engines-disagree", core.Replay{Kind: "oracle", Case: caseID, Impl: "gen=" + answers[i] + "  bindnode=" + h.bind, Expected: bad})
+				}
+				continue
+			}
+			for j := 1; j < len(h.ops); j++ {
+				if j >= len(cf.calls) || cf.calls[j] != "ok" {
+					bad = fmt.Sprintf("call %d (%s) → ok", j, h.ops[j].Tokens())
+					break
+				}
+			}
+			if bad == "" && cf.final != h.want {
+				bad = h.want
+			}
+			if bad != "" {
+				report("C13/retry-"+engine+"-refused-value-had-an-effect", core.Replay{Kind: "oracle", Case: caseID, Impl: cf.obs, Expected: bad,
+					Detail: "after a refused value the builder is as before: the legal history that follows is accepted call by call and builds the inhabitant"})
+			}
 		}
 	}
 	return nil
